@@ -122,6 +122,9 @@ pub struct EnvInner {
     pub singles: u8,
     pub last_tx: Option<Vec<u8>>,
     pub slot_counts: [usize; 5],
+    /// C20: record (serialised, Debug) of the session at every event of an nb transaction
+    pub capture_sessions: bool,
+    pub captured_sessions: Vec<(String, String)>,
     /// RF configuration of the most recent receive set-up (survives take_trace)
     pub last_window: Option<Rf>,
     pub resolver: Option<Resolver>,
@@ -158,6 +161,8 @@ impl Env {
             singles: 0,
             last_tx: None,
             slot_counts: [0; 5],
+            capture_sessions: false,
+            captured_sessions: vec![],
             last_window: None,
             resolver: None,
             tx_ms: 0,
